@@ -154,7 +154,11 @@ class Bench:
             if k == "in":
                 m = USBStreamInEndpoint(endpoint_number=n, max_packet_size=e["max"])
             elif k == "out":
-                m = USBStreamOutEndpoint(endpoint_number=n, max_packet_size=e["max"], buffer_size=e["depth"])
+                # depth None = the constructor's default buffer size; the configuration handed to the spec then
+                # carries the size the elaborated module really has
+                m = USBStreamOutEndpoint(endpoint_number=n, max_packet_size=e["max"], buffer_size=e.get("depth"))
+                if e.get("depth") is None:
+                    e["depth"] = m._buffer_size
             elif k == "sig":
                 from luna.gateware.usb.usb2.endpoints.status import USBSignalInEndpoint
                 m = USBSignalInEndpoint(width=e.get("width", 16), endpoint_number=n, endianness="little")
@@ -718,3 +722,38 @@ class ManagerBench:
         ev.sort(key=lambda x: (x[0], x[1], x[2]))
         self.cycles += st["t"]
         self._result = ([e for _, _, _, e in ev], [t for t, _, _, _ in ev])
+
+
+# ---- running a script on a device whose endpoints carry other numbers -------------------------------------------
+def renumber(ops, perm):
+    """Apply the endpoint-number permutation `perm` (dict; identity elsewhere) to every op of a script, including the
+    endpoint address inside a CLEAR_FEATURE(ENDPOINT_HALT) SETUP packet and ops nested in ("at", d, op) / clrhalt."""
+    def mp(n):
+        return perm.get(n, n)
+
+    def one(op):
+        extra = (op[-1],) if isinstance(op[-1], dict) else ()
+        core = op[:len(op) - len(extra)]
+        k = core[0]
+        if k == "tok":
+            core = (k, core[1], mp(core[2]))
+        elif k in ("in", "ping", "feed", "rate", "flush", "cons", "sig"):
+            core = (k, mp(core[1])) + tuple(core[2:])
+        elif k == "out":
+            core = (k, mp(core[1])) + tuple(core[2:])
+        elif k == "at":
+            core = (k, core[1], one(core[2]))
+        elif k == "clrhalt":
+            core = (k, mp(core[1]), core[2]) + ((renumber(core[3], perm),) if len(core) > 3 else ())
+        elif k == "setup":
+            req = list(core[1])
+            if req[:4] == [2, 1, 0, 0]:
+                req[4] = (req[4] & 0x80) | mp(req[4] & 0x0F)
+            core = (k, req)
+        return core + extra
+
+    return [one(op) for op in ops]
+
+
+def renumber_eps(eps, perm):
+    return [dict(e, n=perm.get(e["n"], e["n"])) for e in eps]
